@@ -24,8 +24,13 @@ pub fn prop() -> Prop {
     }
 }
 
+thread_local! {
+    /// second pass of the directed families without the shadow heap (real address reuse)
+    static LEDGER: std::cell::Cell<bool> = std::cell::Cell::new(true);
+}
+
 fn opts(budget: u64) -> RunOpts {
-    RunOpts { budget: Some(budget), ledger: true, trace: false, render: true }
+    RunOpts { budget: Some(budget), ledger: LEDGER.with(|c| c.get()), trace: false, render: true }
 }
 
 fn prelude() -> Vec<Stmt> {
@@ -281,6 +286,16 @@ fn deep() -> Vec<(String, u64, u64, String)> {
 }
 
 fn run(sh: &mut Shard) {
+    LEDGER.with(|c| c.set(false));
+    for prog in rebinding().into_iter().chain(shapes()).chain(arity_ladder()) {
+        if !sh.mine() {
+            continue;
+        }
+        sh.begin(&|| printer::program(&prog));
+        sh.count("family:second-pass-without-shadow-heap");
+        differential(sh, "calls", &prog, opts(1_000_000));
+    }
+    LEDGER.with(|c| c.set(true));
     let tier = sh.cfg.tier;
     // frame-size and entry-offset ladders
     crate::ladders::run_family(sh, "calls", Some("calls"), false);
